@@ -21,32 +21,37 @@ def fams(*fs):
     return list(fs)
 
 
+HANG = "fatal error: all goroutines are asleep - deadlock!"
+
 PROPS = {
     "C01": {"level": "model_checking",
-            "quick": lambda s: gen.fam_data(s, 64) + gen.fam_life(s, 5, policies=("lazy",), causes=("close", "ctxcancel")) + gen.fam_cancel(s, 5, policies=("lazy",)),
-            "thorough": lambda s: gen.fam_data(s, 600, big=True) + gen.fam_life(s, 0) + gen.fam_cancel(s, 0)},
+            "quick": lambda s: gen.fam_data(s, 64) + gen.fam_life(s, 4, policies=("lazy", "slowsrv", "slowcli"), causes=("close", "ctxcancel"), fcs=("fc",))
+                               + gen.fam_cancel(s, 4, policies=("lazy", "slowsrv", "slowcli"), fcs=("fc",))
+                               + gen.fam_gates(s, 3, gates=["cli.alloc", "cli.new.sent", "car.sent.c2s.new", "car.sent.c2s.msg", "car.sent.s2c.msg", "srv.watch.fired"], faults=("none", "cancel")),
+            "thorough": lambda s: gen.fam_data(s, 600, big=True) + gen.fam_life(s, 0) + gen.fam_cancel(s, 0) + gen.fam_gates(s, 0)},
     "C13": {"level": "model_checking",
-            "quick": lambda s: gen.fam_data(s, 48) + gen.fam_cancel(s, 5, policies=("eager",)) + gen.fam_indep(s, 0, policies=("random",)),
-            "thorough": lambda s: gen.fam_data(s, 400, big=True) + gen.fam_cancel(s, 0) + gen.fam_indep(s, 0) + gen.fam_life(s, 12)},
+            "quick": lambda s: gen.fam_data(s, 48) + gen.fam_cancel(s, 4, policies=("eager", "slowcli"), fcs=("fc",)) + gen.fam_indep(s, 4, policies=("random",)),
+            "thorough": lambda s: gen.fam_data(s, 400, big=True) + gen.fam_cancel(s, 0) + gen.fam_indep(s, 0) + gen.fam_life(s, 12) + gen.fam_gates(s, 4)},
     "C06": {"level": "model_checking",
             "quick": lambda s: gen.fam_data(s, 64),
             "thorough": lambda s: gen.fam_data(s, 600, big=True)},
-    "C04": {"level": "model_checking",
-            "quick": lambda s: gen.fam_life(s, 8),
-            "thorough": lambda s: gen.fam_life(s, 0, fcs=("fc", "nofc"))},
-    "C07": {"level": "model_checking",
-            "quick": lambda s: gen.fam_cancel(s, 8),
-            "thorough": lambda s: gen.fam_cancel(s, 0, fcs=("fc", "nofc"))},
-    "C03": {"level": "model_checking",
-            "quick": lambda s: gen.fam_indep(s, 0),
-            "thorough": lambda s: sum((gen.fam_indep(s + i, 0) for i in range(8)), [])},
-    "C14": {"level": "model_checking", "snap": True,
-            "quick": lambda s: gen.fam_life(s, 4) + gen.fam_cancel(s, 4) + gen.fam_indep(s, 0, policies=("random",)),
-            "thorough": lambda s: gen.fam_life(s, 0) + gen.fam_cancel(s, 0) + gen.fam_indep(s, 0)},
-    "C02": {"level": "model_checking",
+    "C04": {"level": "model_checking", "also": ["C16_NoSuccessOnWrongCount"], "hang": True,
+            "quick": lambda s: gen.fam_life(s, 5),
+            "thorough": lambda s: gen.fam_life(s, 0) + gen.fam_gates(s, 0, faults=("close",))},
+    "C07": {"level": "model_checking", "also": ["C16_NoSuccessOnWrongCount"], "hang": True,
+            "quick": lambda s: gen.fam_cancel(s, 5) + gen.fam_gates(s, 4, gates=["cli.alloc", "cli.watch.fired", "cli.cancel.finished", "cli.cancel.emit", "srv.finish.cancelled", "srv.close.emit", "car.sent.c2s.cancel"], faults=("cancel",)),
+            "thorough": lambda s: gen.fam_cancel(s, 0) + gen.fam_gates(s, 0, faults=("cancel",))},
+    "C03": {"level": "model_checking", "hang": True,
+            "quick": lambda s: gen.fam_indep(s, 8) + gen.fam_shutdown(s, 3, policies=("eager",))
+                               + gen.fam_gates(s, 4, gates=["cli.alloc", "car.sent.c2s.new", "srv.reject.emit"], faults=("cancel",)),
+            "thorough": lambda s: sum((gen.fam_indep(s + i, 0) for i in range(8)), []) + gen.fam_shutdown(s, 0) + gen.fam_gates(s, 0, faults=("cancel",))},
+    "C14": {"level": "model_checking", "snap": True, "hang": True,
+            "quick": lambda s: gen.fam_life(s, 3, policies=("eager", "slowcli")) + gen.fam_cancel(s, 3, policies=("lazy", "slowcli")) + gen.fam_indep(s, 3, policies=("random",)),
+            "thorough": lambda s: gen.fam_life(s, 0) + gen.fam_cancel(s, 0) + gen.fam_indep(s, 0) + gen.fam_gates(s, 4)},
+    "C02": {"level": "model_checking", "also": ["C16_NoSuccessOnWrongCount"],
             "quick": lambda s: gen.fam_meta(s, 160) + gen.fam_data(s, 24),
             "thorough": lambda s: sum((gen.fam_meta(s + i, 400, gated=(i == 0)) for i in range(4)), []) + gen.fam_data(s, 200)},
-    "C10": {"level": "model_checking",
+    "C10": {"level": "model_checking", "hang": True,
             "quick": lambda s: gen.fam_shutdown(s, 8),
             "thorough": lambda s: gen.fam_shutdown(s, 0)},
 }
